@@ -870,13 +870,26 @@ def _prime(st, c):
 _ARRID = z3.Function("array_identity", z3.IntSort(), z3.IntSort(), z3.IntSort(), z3.IntSort(), z3.IntSort())
 
 
+_STABLE_IDS = iter(range(1000, 10 ** 12))
+
+
+def stable_id(obj):
+    """Identity of an (immutable) array value as a small integer that is the same on every run (python's id() varies
+    from run to run - solver behaviour must not - and can be REUSED after the object is freed)."""
+    sid = getattr(obj, "_stable_id", None)
+    if sid is None:
+        sid = next(_STABLE_IDS)
+        obj._stable_id = sid
+    return sid
+
+
 def arrid(I, st, v):
     """Value identity of an array argument: (content object, index path) - two arguments with the same identity
     term denote the same array value.  Used to state 'computed from exactly that slice' for abstract callees."""
     if isinstance(v, Opt):
         v = v.val
     if isinstance(v, Ref) and v.what == "arr":
-        return _ARRID(z3.IntVal(id(st.heap[v.rid]) % (10 ** 9)), z3.IntVal(-2), z3.IntVal(-2), z3.IntVal(-2))
+        return _ARRID(z3.IntVal(stable_id(st.heap[v.rid])), z3.IntVal(-2), z3.IntVal(-2), z3.IntVal(-2))
     if isinstance(v, Arr):
         vo = getattr(v, "_view_of", None)
         if vo is not None and vo[0] in st.heap:
@@ -888,8 +901,8 @@ def arrid(I, st, v):
             if al is not None:
                 # row r of np.repeat(a, k, axis=0) IS (the value of) row r // k of a
                 return _ARRID(z3.IntVal(al[0]), al[1](idx[0]), *idx[1:])
-            return _ARRID(z3.IntVal(id(content) % (10 ** 9)), *idx)
-        return _ARRID(z3.IntVal(id(v) % (10 ** 9)), z3.IntVal(-2), z3.IntVal(-2), z3.IntVal(-2))
+            return _ARRID(z3.IntVal(stable_id(content)), *idx)
+        return _ARRID(z3.IntVal(stable_id(v)), z3.IntVal(-2), z3.IntVal(-2), z3.IntVal(-2))
     raise Unsupported("array identity of " + type(v).__name__)
 
 
@@ -1317,7 +1330,7 @@ def np_repeat(I, st, args, kw, node):
               lambda *idx: a.elem(to_z3(idx[0]) / kz, *idx[1:]), kind="ndarray", etype=a.etype)
     src = args[0]
     if isinstance(src, Ref) and src.what == "arr":
-        out._row_alias = (id(st.heap[src.rid]) % (10 ** 9), lambda r: to_z3(r) / kz)   # type: ignore[attr-defined]
+        out._row_alias = (stable_id(st.heap[src.rid]), lambda r: to_z3(r) / kz)   # type: ignore[attr-defined]
     return st.alloc(out, "arr")
 
 
